@@ -20,6 +20,7 @@ LEVEL_TEXT = (
     "(comparator evaluated on the order classes of count vs 2), positions are rows of new_points equal on all "
     "coordinates. Decides these clauses for all histories and draws; numpy.unique's own semantics are trusted."
     ' (D8) every concrete sample_batch returns storage allocated during the call (not a view of a work array the sampler keeps): sample() substitutes repeats in place, so an aliased redraw would overwrite points that were not repeats.'
+    ' (D4) the history / search-space parameters of sample() are never re-bound and reach both draws as passed; (D9) every sampler constructor forwards its arguments to the base-class parameters of the same name (the pass budget the user set is the one used).'
 )
 TECHNIQUE = "normal forms + CFG dominance/control dependence + reaching definitions"
 
